@@ -92,6 +92,26 @@ def gen_traces_exh(k, depth=60, max_edges=300000):
     return traces
 
 
+def gen_traces_seq(max0, hooks, depth=8, max_edges=200000, stride=1):
+    """bounded-exhaustive exploration of sequences of whole operations (non-blocking get, get with a rejected idle
+    object, return, take, resize 0..3, retain, close, status), breadth first and pruned by the abstract pool state;
+    one trace per (state, operation) edge, each followed by the drain and the capacity probe"""
+    p = subprocess.run([BIN, 'seq', str(max0), str(hooks), str(depth), str(max_edges), str(stride)],
+                       stdout=subprocess.PIPE, stderr=subprocess.PIPE, text=True, timeout=6000)
+    traces = []
+    for line in p.stdout.splitlines():
+        try:
+            traces.append(json.loads(line))
+        except ValueError:
+            break
+    for t in traces:
+        t['profile'] = 'seq%d.%d' % (max0, hooks)
+    if p.returncode != 0:
+        raise HarnessDied('sequential exploration died after %d traces (rc %d): %s' % (len(traces), p.returncode, p.stderr[-400:]),
+                          traces[-1] if traces else None)
+    return traces
+
+
 def gen_traces_h2(seed, n, maxlabels):
     """task-level traces on a paused tokio clock (pool with a runtime; timeouts can fire)"""
     p = subprocess.run([BIN2, 'gen', str(seed), str(n), str(maxlabels)],
@@ -718,6 +738,11 @@ def run_engine(seed, tier):
         ex = gen_traces_exh(k)
         exh_done.append(dict(scenario=k, edges=len(ex)))
         traces += ex
+    seq_done = []
+    for (m0, hk) in (((2, 0), (3, 1), (1, 0), (2, 2)) if tier == 'thorough' else ((2, 0), (3, 1))):
+        sq = gen_traces_seq(m0, hk)
+        seq_done.append(dict(max_size=m0, hooks=hk, edges=len(sq)))
+        traces += sq
     table = build_table()
     t1 = time.time()
     # fast path: the comparison of the full observation runs inside Coq; only for traces that
@@ -741,6 +766,7 @@ def run_engine(seed, tier):
     res['aborted'] = list(ABORTED)
     res['build_table_rows'] = len(table)
     res['exhaustive_scenarios'] = exh_done
+    res['sequential_exploration'] = seq_done
     st = run_stress(60000 if tier == 'thorough' else 5000, seed)
     res['stress_runs'] = st['runs']
     for f in st['fails']:
